@@ -2,7 +2,7 @@
    flat, a lone white capstone, flats, empty runs of lengths 1..5) satisfies every hypothesis of the round-trip
    theorems; its TPS text is shown, and the theorems' conclusions are instantiated on it. *)
 From Coq Require Import NArith ZArith List Bool Lia Ascii String ZifyN ZifyBool ZifyNat.
-Require Import Board Move GameOver PtnMove Playtak Tps TpsFacts TpsFacts2 TpsFacts3 TpsFacts4 TpsFacts5 TpsFacts6.
+Require Import Board Move GameOver PtnMove Playtak Tps TpsFacts TpsFacts2 TpsFacts3 TpsFacts4 TpsFacts5 TpsFacts6 TpsFacts8.
 Import ListNotations.
 Local Open Scope N_scope.
 
@@ -87,4 +87,56 @@ Proof.
   rewrite forallb_forall in A. assert (In i (map N.of_nat (seq 0 9))).
   { apply in_map_iff. exists (N.to_nat i). split; [lia|]. apply in_seq. lia. }
   specialize (A i H). cbv beta in A. apply andb_true_iff in A. lia.
+Qed.
+
+(* ---- a canonical string ---- *)
+Definition cell_okb (sq : list pc) : bool :=
+  match sq with
+  | [] => true
+  | P _ k :: below => ((k =? 1) || (k =? 2) || (k =? 3)) && forallb (fun pp => match pp with P _ k' => k' =? 1 end) below
+                      && (List.length sq <=? 65)%nat
+  end.
+
+Lemma cell_okb_ok sq : cell_okb sq = true -> cell_ok sq.
+Proof.
+  destruct sq as [|[b k] below]; [now left|]. intros H. right. cbn [cell_okb] in H.
+  rewrite !andb_true_iff in H. destruct H as [[Hk Hfl] Hlen]. split; [|split].
+  - cbn [wf_square]. split; [lia|]. apply Forall_forall. intros [b' k'] Hin.
+    rewrite forallb_forall in Hfl. specialize (Hfl _ Hin). cbn in *. lia.
+  - apply Nat.leb_le in Hlen. lia.
+  - intros j Hj. apply Nat.leb_le in Hlen. rewrite nth_overflow by lia. reflexivity.
+Qed.
+
+Definition valid_boardb (n : nat) (board : list (list (list pc))) : bool :=
+  (3 <=? n)%nat && (n <=? 8)%nat && (List.length board =? n)%nat && forallb (fun row => (List.length row =? n)%nat) board
+  && forallb (forallb cell_okb) board.
+
+Lemma valid_boardb_ok n board : valid_boardb n board = true -> valid_board n board.
+Proof.
+  unfold valid_boardb. rewrite !andb_true_iff. intros [[[[H1 H2] H3] H4] H5]. constructor.
+  - split; [now apply Nat.leb_le|now apply Nat.leb_le].
+  - now apply Nat.eqb_eq.
+  - apply Forall_forall. intros row Hr. rewrite forallb_forall in H4. apply Nat.eqb_eq. now apply H4.
+  - apply Forall_forall. intros row Hr. apply Forall_forall. intros sq Hs. apply cell_okb_ok.
+    rewrite forallb_forall in H5. specialize (H5 _ Hr). rewrite forallb_forall in H5. now apply H5.
+Qed.
+
+Definition ex_board : list (list (list pc)) :=
+  [ [[P false 1]; []; []; [P false 3]; []];
+    [[]; [P true 3; P false 1; P true 1; P true 1; P false 1; P false 1; P true 1]; []; []; []];
+    [[]; []; [P false 2; P true 1]; []; []];
+    [[]; []; []; []; []];
+    [[]; []; []; []; [P true 1]] ].
+
+Example ex_canonical : canonical_tps (bytes_of "x4,2/x5/x2,21S,x2/x,2112212C,x3/1,x2,1C,x 2 7").
+Proof.
+  exists 5%nat, ex_board, 13%Z. split; [apply valid_boardb_ok; vm_compute; reflexivity|]. split; [lia|].
+  vm_compute. reflexivity.
+Qed.
+
+(* a second one: 3x3, every run length at a row end and at a row start, move number with several digits *)
+Example ex_canonical2 : canonical_tps (bytes_of "x3/2,x2/x2,12S 1 1234567").
+Proof.
+  exists 3%nat, [[[]; []; [P true 2; P false 1]]; [[P true 1]; []; []]; [[]; []; []]], 2469132%Z.
+  split; [apply valid_boardb_ok; vm_compute; reflexivity|]. split; [lia|]. vm_compute. reflexivity.
 Qed.
